@@ -38,6 +38,8 @@ FS_HEALTH = ["NONE", "GOOD", "COMPROMISED", "CORRUPT", "RESTORING", "REPAIRING"]
 SVC_REQS = ["scan", "fix", "compromise", "stop", "start", "pause", "resume", "restart", "disable", "enable"]
 APP_REQS = ["scan", "fix", "compromise", "close"]
 ITEM_REQS = ["scan", "checkhash", "repair", "restore", "corrupt"]
+STRUCT_OPS = ("appinstallreq", "appuninstallreq", "swinstallapi", "swuninstallapi", "fscreatefolder", "fscreatefile", "fscopyfile",
+              "dbrestore")
 
 
 def o(x) -> str:
@@ -219,7 +221,10 @@ class Impl:
         """one operation; records the model line(s) that describe it in `self.resolved`"""
         self._lines = [list(op)]
         r = self._apply(op)
-        self._refresh()
+        if op[0] in STRUCT_OPS:
+            # items that appear during other operations come from network traffic of a scenario's other nodes (an FTP backup
+            # arriving during a tick): outside this model, ignored as before
+            self._refresh()
         self.resolved.append(self._lines)
         return r
 
@@ -416,7 +421,7 @@ def gen_case(rng: Rng, max_ops: int = 40) -> dict:
     sw = []
     for k in keys:
         sw.append({"cls": k, "fix": rng.choice(DURS + [-1]),
-                   "health": rng.choice(["GOOD", "GOOD", "UNUSED", "COMPROMISED", "OVERWHELMED"]),
+                   "health": rng.choice(["GOOD", "GOOD", "UNUSED", "COMPROMISED", "OVERWHELMED", "FIXING"]),
                    "aux": rng.choice([None, 0, 1, 2])})
     sysfix = {n: rng.choice(DURS) for n in SYS_SVCS + SYS_APPS if rng.chance(1, 3)}
     folders = []
